@@ -121,6 +121,12 @@ func c17Cases(tier string, seed uint64) []fw.Case {
 		cc := c17Case{Kind: "bus", Procs: []int{4, 16, 2}[i], Reps: reps, Name: fmt.Sprintf("bus/%d", i)}
 		cs = append(cs, fw.MkCase("bus", &cc))
 	}
+	// senders registering while a cancelled tracer is being released by its last sender (C09's drain rounds, here
+	// under the race detector)
+	for i := 0; i < 2; i++ {
+		cc := c17Case{Kind: "drain", Procs: []int{2, 8}[i], Reps: 1, Name: fmt.Sprintf("drain/%d", i)}
+		cs = append(cs, fw.MkCase("drain", &cc))
+	}
 	// the same with 96 branches: one process that has seen several hundred distinct condition texts (whatever the
 	// expression engines keep per text has grown, been trimmed or been rebuilt) and goes on compiling concurrently
 	for i := 0; i < 2; i++ {
@@ -573,6 +579,14 @@ func c17Run(c *c17Case, env *fw.Env, v *fw.V) {
 			fw.Rep(env, i, func(env *fw.Env) { c17Objects(env, v) })
 		case "bus":
 			fw.Rep(env, i, func(env *fw.Env) { c17Bus(env, v) })
+		case "drain":
+			tmp := fw.NewV(fw.Case{})
+			c09Drain(&c09Case{Level: "drain", Senders: 2, Sends: 200, Procs: c.Procs}, env, tmp)
+			for _, f := range tmp.Findings {
+				if f.Status == fw.Violation {
+					v.Violate("outcome-"+f.Rule, "tracer-drain", "%s", f.Msg)
+				}
+			}
 		case "conditions":
 			w := c.Width
 			if w == 0 {
